@@ -274,20 +274,75 @@ def run(chk):
                 ok = bool(refuse) or any(b.endswith(f".try_swap_site({obj}.model,{obj}.compress_config.ofs_swap_jw)") for b in swap)
                 chk.ob("ofs-pair", f"{fi.qual}: {obj}._update_mps", ok, fi.where, body, f"mpo.try_swap_site({obj}.model, {obj}.compress_config.ofs_swap_jw) or raise NotImplementedError",
                        line=follow.lineno, detail=f"{fi.qual}: the operator-side swap does not use the swept state's new model and its Jordan-Wigner flag")
-    # ---- try_swap_site co-update
+    # ---- try_swap_site co-update: abstract run on a symbolic 5-site operator whose new model has sites k, k+1 exchanged
+    from ..syminterp import SymInterp, Sym, Blob, SymRaise
     ts = src.func(MPO, "Mpo.try_swap_site")
-    stores = [unparse(t).replace(" ", "") for s in walk_no_nested(ts.node) if isinstance(s, ast.Assign) for t in s.targets]
-    for want in ("self.symbolic_out_ops_list[i+1]", "self.symbolic_out_ops_list[i+2]", "self.model", "self.qn[i+1]"):
-        chk.ob("swap-co-update", want, want in stores, ts.where, [s for s in stores if s.startswith("self.")], want, line=ts.node.lineno,
-               detail=f"try_swap_site does not update {want}: a later swap or contraction uses stale bookkeeping")
-    loop = [n for n in ast.walk(ts.node) if isinstance(n, ast.For) and "zip([i,j],[mo1,mo2])" in unparse(n.iter).replace(" ", "")]
-    okl = len(loop) == 1 and any(unparse(s.targets[0]).replace(" ", "") == "self[impo]" and "new_model.basis[impo]" in unparse(s.value) for s in loop[0].body if isinstance(s, ast.Assign))
-    chk.ob("swap-co-update", "both site tensors rebuilt with the new basis order", okl, ts.where, [unparse(l.iter) for l in loop], "for impo, mo in zip([i, j], [mo1, mo2]): self[impo] = numeric(new_model.basis[impo], mo)",
-           line=ts.node.lineno)
-    sw = [c for c in ast.walk(ts.node) if isinstance(c, ast.Call) and unparse(c.func) == "swap_site"]
-    oks = len(sw) == 1 and unparse(sw[0].args[0]).replace(" ", "") == "self.symbolic_out_ops_list[i:i+3]" and unparse(sw[0].args[1]) == "self.primary_ops" and unparse(sw[0].args[2]) == ts.params()[2]
-    chk.ob("swap-co-update", "swap_site receives the three bond lists around sites i, i+1 and the JW flag", oks, ts.where, [unparse(c)[:90] for c in sw],
-           "swap_site(self.symbolic_out_ops_list[i:i+3], self.primary_ops, swap_jw, ...)", line=ts.node.lineno)
+    n_sites = 5
+    for k in (0, 2, 3):
+        for jw in (True, False):
+            basis = [Sym(f"basis{q}", dofs=[f"dof{q}"]) for q in range(n_sites)]
+            new_basis = list(basis)
+            new_basis[k], new_basis[k + 1] = basis[k + 1], basis[k]
+            old_model = Sym("old model", basis=basis)
+            cleared = []
+            new_model = Sym("new model", basis=new_basis, mpos=Sym("mpos", clear=lambda: cleared.append(True)))
+            out_ops = [f"bond{q}" for q in range(n_sites + 1)]
+            qn = [f"qn{q}" for q in range(n_sites + 1)]
+            calls, built = [], []
+
+            class Op_(Sym):
+                def __init__(self):
+                    super().__init__("mpo")
+                    self.sites = [f"site{q}" for q in range(n_sites)]
+
+                def __setitem__(self, i, v):
+                    self.sites[i] = v
+
+                def __getitem__(self, i):
+                    return self.sites[i]
+
+                def __len__(self):
+                    return n_sites
+            me = Op_()
+            me.__dict__.update(model=old_model, symbolic_out_ops_list=out_ops, primary_ops="primary ops", qn=qn, dtype="dtype")
+
+            def swap_site(ops3, primary, swap_jw, algo=None, calls=calls):
+                calls.append((list(ops3), primary, swap_jw))
+                return "new bond k+1", "new bond k+2", "mo(k)", "mo(k+1)", "new qn k+1"
+            it = SymInterp(src, None, {"swap_site": swap_site, "logger": Blob("logger"),
+                                       "symbolic_mo_to_numeric_mo": lambda b, mo, dtype: built.append((b, mo, dtype)) or ("numeric", b, mo)})
+            probs = []
+            try:
+                it.call_function(ts, [me, new_model, jw])
+            except SymRaise as e:
+                probs.append(f"raises {e}")
+            want_ops = out_ops[:k + 1] + ["new bond k+1", "new bond k+2"] + out_ops[k + 3:]
+            if not probs:
+                if calls != [([f"bond{k}", f"bond{k + 1}", f"bond{k + 2}"], "primary ops", jw)]:
+                    probs.append(f"swap_site called with {calls}; expected the three bond lists {k}..{k + 2}, the primary operators and the Jordan-Wigner flag {jw}")
+                if me.symbolic_out_ops_list != want_ops:
+                    probs.append(f"bond operator lists after the swap: {me.symbolic_out_ops_list}; expected {want_ops}")
+                if me.model is not new_model:
+                    probs.append("the operator keeps its old model")
+                want_qn = qn[:k + 1] + ["new qn k+1"] + qn[k + 2:]
+                if me.qn != want_qn:
+                    probs.append(f"bond labels after the swap: {me.qn}; expected {want_qn}")
+                want_sites = [f"site{q}" for q in range(n_sites)]
+                want_sites[k], want_sites[k + 1] = ("numeric", new_basis[k], "mo(k)"), ("numeric", new_basis[k + 1], "mo(k+1)")
+                if me.sites != want_sites:
+                    probs.append(f"site tensors after the swap: {me.sites}; expected sites {k}, {k + 1} rebuilt from (new basis set of that site, its symbolic matrix)")
+                if any(d != "dtype" for _, _, d in built):
+                    probs.append("site tensors rebuilt with another dtype than the operator's")
+            chk.ob("swap-co-update", f"try_swap_site[sites {k},{k + 1} exchanged, swap_jw={jw}]", not probs, ts.where, probs[:3] or "bond lists, labels, model and both site tensors updated together",
+                   "bond lists, labels, model and both site tensors updated together", line=ts.node.lineno,
+                   detail="try_swap_site: " + (probs[0] if probs else "") + " - a later swap or contraction then uses stale bookkeeping or tensors in the old basis order")
+    # no exchange: nothing may change
+    basis = [Sym(f"basis{q}", dofs=[f"dof{q}"]) for q in range(3)]
+    me0 = Sym("mpo", model=Sym("m", basis=basis), symbolic_out_ops_list=["b0", "b1", "b2", "b3"], primary_ops="p", qn=["q0", "q1", "q2", "q3"], dtype="dtype")
+    it = SymInterp(src, None, {"swap_site": lambda *a, **k: (_ for _ in ()).throw(AnalysisError("swap_site called although the models agree")), "logger": Blob("logger"), "symbolic_mo_to_numeric_mo": lambda *a: None})
+    it.call_function(ts, [me0, Sym("same order", basis=list(basis), mpos=Sym("mpos", clear=lambda: None)), False])
+    chk.ob("swap-co-update", "try_swap_site[same site order]: nothing changes", me0.symbolic_out_ops_list == ["b0", "b1", "b2", "b3"] and me0.qn == ["q0", "q1", "q2", "q3"], ts.where,
+           {"bond lists": me0.symbolic_out_ops_list, "labels": me0.qn}, "unchanged", line=ts.node.lineno)
     # ---- JW vocabulary
     groups = alias_groups(src)
     chk.table("halfspin_alias_groups", groups)
